@@ -3,7 +3,9 @@
 //! bytes) is computed twice in the same process - on two worlds built one after the other with a
 //! seeded amount of unrelated heap allocation in between (different addresses, different hasher
 //! instances) - and, by the runner, once more in a fresh process at a different worker count
-//! (different address-space layout, different process-wide hash seeds). All hashes must agree.
+//! (different address-space layout, different process-wide hash seeds). The second in-process
+//! execution additionally runs under a simulated clock that jumps forward at every read. All
+//! hashes must agree.
 
 use crate::engine::{Engine, Report, Viol};
 use crate::rng::{mix, Rng};
@@ -105,7 +107,14 @@ fn twin(profile: &str, seed: u64, want_case: bool) -> Report {
         m.insert(r.next_u64(), 1);
         maps.push(m);
     }
+    // the second execution also runs under the simulated clock: every clock read on this thread
+    // jumps forward by a seeded amount (milliseconds to a day), see simclock.rs
+    let clock = crate::simclock::simulate(mix(&[seed, 0xC10C]));
     let (t2, _v2, _) = transcript(profile, seed);
+    let (clock_reads, clock_jumps) = clock.counts();
+    drop(clock);
+    *counters.entry("clock_reads_by_code_under_simulated_clock".into()).or_insert(0) += clock_reads;
+    *counters.entry("fault.clock_jump.applied".into()).or_insert(0) += clock_jumps;
     drop(junk);
     drop(maps);
     *counters.entry("twin_executions".into()).or_insert(0) += 2;
@@ -154,7 +163,7 @@ impl Engine for Twin {
     }
     fn rule(&self, profile: &str, _prop: &str) -> String {
         format!(
-            "a case is one seeded single-threaded history ({}), executed twice in one process with unrelated heap allocation in between and once more in a different worker process at a different worker count; the transcript = every handle returned, every join's items in iteration order, every storage's (index, value) sequence, every event stream read{}; non-trivial: >= 4 operations; distinct: transcript hash",
+            "a case is one seeded single-threaded history ({}), executed twice in one process with unrelated heap allocation in between (the second time under a simulated, jumping clock) and once more in a different worker process at a different worker count; the transcript = every handle returned, every join's items in iteration order, every storage's (index, value) sequence, every event stream read{}; non-trivial: >= 4 operations; distinct: transcript hash",
             if profile == "save" { "savesim: two worlds, markers, save/load" } else { "worldsim profile `single`: all storage kinds incl. HashMapStorage / BTreeStorage / tracked, lazy updates, no parallel phases" },
             if profile == "save" { ", the serialised bytes" } else { "" }
         )
@@ -162,7 +171,7 @@ impl Engine for Twin {
     fn components(&self) -> serde_json::Value {
         serde_json::json!({
             "real": ["everything the worldsim / savesim engines run"],
-            "stub": ["nothing is stubbed; the environment is varied instead: hasher instances and heap addresses (same process), process-wide hash seeds and address-space layout (fresh process)"]
+            "stub": ["nothing is stubbed; the environment is varied instead: hasher instances and heap addresses (same process), process-wide hash seeds and address-space layout (fresh process), the clock (clock_gettime is answered by the simulator during the second execution: seeded forward jumps of 1 ms .. 1 day per read)"]
         })
     }
 }
